@@ -91,6 +91,10 @@ def instances(tier):
     }
     for sid, sh in small.items():
         out.append(Instance("C06", "c06:s_consistency", dict(shape=sh), name="S/" + sid, uf=True, cover=["solved"], weight=30))
+    for sid, sh in shapes.real_loop_phase_shapes().items():
+        for ph in sh["phases"]:
+            out.append(Instance("C06", "sys_common:s_real_loop", dict(shape=sh, oracle="c01", opts={"phase": ph}), name="RL/%s@%s" % (sid, ph),
+                                uf=True, cover=["solved"], weight=20))
     for kind in list(spec.LOADS) + list(spec.PHASED_LIST):
         if kind in ("PMux", "Source"):  # mux: C05; negative-source law is a recorded finding of C01
             continue
